@@ -960,10 +960,6 @@ package bpmn
 //@   assumed
 //@   flag emits opaque
 //@   flag allocs
-//@ func (*Process).ConsumeEvent
-//@   assumed
-//@   flag emits opaque
-//@   flag allocs
 
 // Looking up the waiting process of a message flow target reads the definitions only.
 //@ func (*ProcessSet).resolveWaitingProcessAndEvent
@@ -1062,3 +1058,52 @@ package bpmn
 //@         isTrace(ev(old(evlen) + 1)) && is(evval(ev(old(evlen) + 1)), ActiveBoundaryTrace) && evval(ev(old(evlen) + 1)).(ActiveBoundaryTrace).Start &&
 //@         count(Spawn, code("(*harness).run$1")) == old(count(Spawn, code("(*harness).run$1"))) + 1 &&
 //@         isSend(ev(evlen - 1)) && evch(ev(evlen - 1)) == evval(ev(old(evlen))).(nextHarnessActionMessage).response
+
+// ---------------------------------------------------------------------------------------------------------------
+// Event delivery (C11)
+
+// An event handed to a process is forwarded to every consumer registered at that moment, once each, in registration
+// order; seen from a caller that only cares about its own bookkeeping these are interface calls and opaque events.
+//@ func (*Process).ConsumeEvent
+//@   prop C11 C18
+//@   flag emits opaque+calls
+//@   flag nonblocking
+//@   ensures [every-registered-consumer-once] count(Call, code("event|IConsumer.ConsumeEvent")) == old(count(Call, code("event|IConsumer.ConsumeEvent"))) + old(len(p.eventConsumers))
+
+// A catch event consumes an event by queueing it for its own goroutine.  Delivery must not block, whatever the node's
+// state (not yet reached, waiting, already passed).
+//@ func (*catchEvent).ConsumeEvent
+//@   prop C11
+//@   flag nonblocking
+//@   ensures [queued-once-for-the-listener] evlen == old(evlen) + 1 && isSend(ev(old(evlen))) && evch(ev(old(evlen))) == evt.mch &&
+//@             is(evval(ev(old(evlen))), processEventMessage) && evval(ev(old(evlen))).(processEventMessage).event == ev
+//@   ensures result == event.Consumed && err == nil
+
+// The listener: an event is looked at only while the node is activated; a satisfying event releases every waiting
+// token exactly once with all outgoing flows and deactivates the node; a non-satisfying one releases nobody; an event
+// arriving while the node is not activated is dropped without any effect.
+//@ func (*catchEvent).run
+//@   prop C11 C14 C07
+//@   requires evt.wiring != nil && evt.satisfier != nil
+//@   requires cesShape(evt.satisfier) && cesDistinct(evt.satisfier) && cesNoneFull(evt.satisfier) && cesCommonBit(evt.satisfier)
+//@   loop 1 for
+//@     invariant evt.wiring != nil && evt.wiring == old(evt.wiring) && evt.satisfier == old(evt.satisfier) && evt.mch == old(evt.mch)
+//@     invariant cesShape(evt.satisfier) && cesDistinct(evt.satisfier) && cesNoneFull(evt.satisfier) && cesCommonBit(evt.satisfier)
+//@     iter ensures [event-while-not-listening-is-dropped]
+//@       isRecv(ev(old(evlen))) && evch(ev(old(evlen))) == evt.mch && is(evval(ev(old(evlen))), processEventMessage) && !old(evt.activated) ==>
+//@         evlen == old(evlen) + 1 && !evt.activated && evt.awaitingActions == old(evt.awaitingActions)
+//@     iter ensures [a-token-arriving-starts-listening-and-waits]
+//@       isRecv(ev(old(evlen))) && evch(ev(old(evlen))) == evt.mch && is(evval(ev(old(evlen))), nextActionMessage) ==>
+//@         evt.activated && len(evt.awaitingActions) == old(len(evt.awaitingActions)) + 1 &&
+//@         evt.awaitingActions[len(evt.awaitingActions) - 1] == evval(ev(old(evlen))).(nextActionMessage).response &&
+//@         count(Send, flowAction) == old(count(Send, flowAction))
+//@     iter ensures [releases-happen-only-on-an-event-while-listening]
+//@       count(Send, flowAction) > old(count(Send, flowAction)) ==>
+//@         isRecv(ev(old(evlen))) && is(evval(ev(old(evlen))), processEventMessage) && old(evt.activated)
+//@     iter ensures [a-release-frees-every-waiting-token-once-and-stops-listening]
+//@       count(Send, flowAction) > old(count(Send, flowAction)) ==>
+//@         count(Send, flowAction) == old(count(Send, flowAction)) + old(len(evt.awaitingActions)) && len(evt.awaitingActions) == 0 && !evt.activated
+//@   loop 2 range awaitingActions
+//@     invariant evt.wiring != nil && evt.wiring == old(evt.wiring) && evt.satisfier == old(evt.satisfier) && evt.mch == old(evt.mch)
+//@     invariant cesShape(evt.satisfier) && cesDistinct(evt.satisfier) && cesNoneFull(evt.satisfier) && cesCommonBit(evt.satisfier)
+//@     invariant count(Send, flowAction) == athead(1, count(Send, flowAction)) + rk2 && evt.activated && evt.awaitingActions == athead(1, evt.awaitingActions)
